@@ -204,11 +204,11 @@ class _MetaAgent(type):
         default tag value of the Agent's metaclass.
     """
 
-    def __init__(cls, name: str, bases: tuple, properties: dict):
-        super(_MetaAgent, cls).__init__(name, bases, properties)
-        cls._id = name
-        cls._components = {}
-        cls._tag = Tags.NONE
+    def __new__(mcs, name: str, bases: tuple, properties: dict):
+        # Every class gets its own state before type.__new__ runs the __init_subclass__ / __set_name__ hooks: a hook
+        # that attaches a class component or sets the default tag then acts on the new class, not on its parent.
+        properties = dict(properties, _id=name, _components={}, _tag=Tags.NONE)
+        return super(_MetaAgent, mcs).__new__(mcs, name, bases, properties)
 
     @property
     def id(cls):
